@@ -2,7 +2,10 @@
 
 package server
 
-import "time"
+import (
+	"net"
+	"time"
+)
 
 // Accessors for the C11 check. No behaviour change.
 
@@ -25,4 +28,42 @@ func VerifC11UDP(s *Server) (slabCap, leased, inFlight int64, inline bool) {
 		}
 	}
 	return 0, 0, 0, false
+}
+
+// VerifC11Leased is the UDP engine's slab lease counter (slabs held by
+// readers, queue, workers and bursts) and the number of its sockets.
+func VerifC11Leased(s *Server) (leased int64, sockets int) {
+	s.listenersMu.Lock()
+	defer s.listenersMu.Unlock()
+	for _, l := range s.active {
+		if u, ok := l.(*udpListener); ok {
+			u.mu.Lock()
+			e := u.engine
+			u.mu.Unlock()
+			if e != nil {
+				return e.leased.Load(), len(e.pcs)
+			}
+		}
+	}
+	return 0, 0
+}
+
+// VerifC11BeforeWrite runs tcpStream.beforeWrite on a stream (over a pipe)
+// whose current deadline lies prevOffset from now (0 = no deadline yet) and
+// reports how far from now the deadline it arms lies, and tcpWriteWait.
+func VerifC11BeforeWrite(prevOffset time.Duration) (armedOffset, writeWait time.Duration, err error) {
+	a, b := net.Pipe()
+	defer a.Close()
+	defer b.Close()
+	s := new(tcpStream)
+	s.reset(a)
+	if prevOffset != 0 {
+		s.deadline = time.Now().Add(prevOffset)
+	}
+	t0 := time.Now()
+	err = s.beforeWrite()
+	if s.wait != nil {
+		s.wait.Stop()
+	}
+	return s.deadline.Sub(t0), tcpWriteWait, err
 }
